@@ -1854,6 +1854,9 @@ class AbsInt:
         if fn.endswith('Ord::clamp') and len(args) == 3:
             return ('max', args[1], ('min', args[2], args[0]))
         # Option / Result plumbing
+        if name == 'then_some' and 'bool' in fn and len(args) == 2:
+            # cond.then_some(v): Some(v) iff cond
+            return ('opt', 'Option', args[1], args[0])
         if fn.endswith('ops::Try::branch'):
             a = args[0]
             if a[0] == 'opt':
